@@ -40,7 +40,7 @@ Theorem C15_conditional_follows_reference :
   forall cx : ctx, c_text cx = concat cs -> (N.of_nat (length (concat cs)) < usize_max)%N ->
   bnd cs (c_pos cx) ->
   forall (bs : N -> bool) (e : expr) (p : prog),
-  compile bs (wrap e) = inr p -> nodeleg (p_body p) -> oke true 0 (wrap e) ->
+  compile bs (wrap e) = inr p -> okdeleg (p_body p) -> oke true 0 (wrap e) ->
   forall fuel : nat, length (concat cs) < fuel ->
   forall (max_st : nat) (lim : option N) (fuelv : nat),
   match fst (vm_run cx p max_st lim fuelv) with
@@ -64,7 +64,7 @@ Definition ex2_e : expr :=
                   Conditional (BackrefExistsCondition 1) (Literal [98] false) (Literal [99] false)]) 1 usize_max true.
 Definition ex2_p : prog :=
   match compile (fun n => N.eqb n 1) (wrap ex2_e) with inr p => p | inl _ => {| p_body := []; p_nsaves := 0 |} end.
-Example ex2_hyps : compile (fun n => N.eqb n 1) (wrap ex2_e) = inr ex2_p /\ nodeleg (p_body ex2_p) /\ oke true 0 (wrap ex2_e).
+Example ex2_hyps : compile (fun n => N.eqb n 1) (wrap ex2_e) = inr ex2_p /\ okdeleg (p_body ex2_p) /\ oke true 0 (wrap ex2_e).
 Proof. split; [reflexivity|]. split; [reflexivity|]. unfold oke. cbn. repeat split; auto; try lia; try reflexivity; try (unfold usize_max; lia). Qed.
 Example ex2_runs :
   exists sv, fst (vm_run {| c_text := [99; 97; 98]; c_pos := 0; c_skipped := false |} ex2_p 100 None 1000) = RMatch sv /\
@@ -78,7 +78,7 @@ Definition ex_e : expr :=
 Definition ex_bs : N -> bool := fun n => N.eqb n 1.
 Definition ex_p : prog :=
   match compile ex_bs (wrap ex_e) with inr p => p | inl _ => {| p_body := []; p_nsaves := 0 |} end.
-Example ex_hyps : compile ex_bs (wrap ex_e) = inr ex_p /\ nodeleg (p_body ex_p) /\ oke true 0 (wrap ex_e).
+Example ex_hyps : compile ex_bs (wrap ex_e) = inr ex_p /\ okdeleg (p_body ex_p) /\ oke true 0 (wrap ex_e).
 Proof. split; [reflexivity|]. split; [reflexivity|]. unfold oke. cbn. repeat split; auto; try lia; try reflexivity. Qed.
 Example ex_runs :
   (exists sv, fst (vm_run {| c_text := [97; 98]; c_pos := 0; c_skipped := false |} ex_p 100 None 1000) = RMatch sv /\
